@@ -206,3 +206,17 @@ Theorem C16_cached_matrix_variant_refuted :
   (forall T P s, cval (c_compose (c_fresh T) (c_fresh P)) = rtp Rops T P /\ cval (c_scale (c_fresh P) s) = pscale Rops P s).
 Proof. exact (conj cached_variant_refuted cached_variant_single_steps_exact). Qed.
 Print Assumptions C16_cached_matrix_variant_refuted.
+
+(* Wave 17.  _calculate_mean_diagonal pairs every sample with ITS Crazyflie pose (zip over both lists) and a sample
+   without base-station angles contributes no diagonal: inserting angle-less samples, with arbitrary poses, anywhere in the
+   lists leaves the observations and hence the mean diagonal (and the scale factor) unchanged.  Dropping the angle-less
+   samples from the sample list only and zipping the rest with the unfiltered pose list does not have this property. *)
+Theorem C16_mean_diagonal_pairs_samples_with_their_poses :
+  (forall cfs1 sams1 cf cfs2 sams2, length cfs1 = length sams1 ->
+     obs_of_samples (cfs1 ++ cf :: cfs2) (sams1 ++ [] :: sams2) = obs_of_samples (cfs1 ++ cfs2) (sams1 ++ sams2) /\
+     mean_diagonal_samples (cfs1 ++ cf :: cfs2) (sams1 ++ [] :: sams2) = mean_diagonal_samples (cfs1 ++ cfs2) (sams1 ++ sams2)) /\
+  (exists cfs sams, obs_filter_then_zip cfs sams <> obs_of_samples cfs sams).
+Proof.
+  split; [|exact filter_then_zip_refuted]. intros. split; [apply obs_insert_empty | apply mean_diagonal_insert_empty]; assumption.
+Qed.
+Print Assumptions C16_mean_diagonal_pairs_samples_with_their_poses.
